@@ -15,7 +15,14 @@ Part A0 (standalone): ``OrderingList.__setitem__`` with a slice is only reachabl
 OrderingList class that the ORM has not instrumented yet (inside a relationship
 ``_list_decorators.__setitem__`` intercepts slices and never delegates them), so this
 part runs first in the process, on plain objects, restricted to the methods that work
-without a collection adapter.  It re-finds DESIGN section 6's `orderinglist-slice-setitem`.
+without a collection adapter.  It re-found DESIGN section 6's `orderinglist-slice-setitem`
+(fixed in /repo by c3b4a65; reverse diff kept in selftest/C50).
+
+Still firing on the live tree (candidate defects, see the report):
+``orderinglist-setitem-negative-index``, ``orderinglist-member-permutation-orphaned``,
+``assocproxy-list-slice-setitem-bounds``, ``assocproxy-list-extended-slice-setitem-
+iterator-rhs``, ``assocproxy-list-extend-self-unbounded``, ``assocproxy-set-difference-
+update-self``, ``assocproxy-dict-pop-default-through-getter``.
 
 Part B (association proxies): list-of-str, set-of-str, dict, list-of-objects (through an
 association object) and proxy-of-proxy collections in lock-step with a plain
